@@ -11,6 +11,9 @@ Streams
   parse  : Nifti1Extensions.from_fileobj on arbitrary (mostly malformed) byte strings, all `size` regimes
   ser    : Nifti1Extensions.write_to alone (bytes) + get_sizeondisk
   size   : get_sizeondisk for every content length 0..200 (exhaustive small)
+  voff   : the REAL Nifti1Header.write_to on extensions whose content is a length-only stand-in: vox_offset field
+           and end of the extension block for totals up to 2^33 (float32 precision of the NIfTI-1 field)
+  f32    : the model's float32 rounding / successor against NumPy (and, in the oracle, exact arithmetic)
 """
 import ast
 import inspect
@@ -40,10 +43,17 @@ THEOREMS = [
     'Nb.C11.ext_roundtrip',
     'Nb.C11.ext_roundtrip_exact',
     'Nb.C11.ext_roundtrip_idempotent',
+    'Nb.C11.offset_field_exact',
+    'Nb.C11.library_offset_ok',
+    'Nb.C11.fits_shipped',
     'Nb.C11.offset_ok',
+    'Nb.C11.offset_ok_shipped',
+    'Nb.C11.offset_nifti1_f4_orig_counterexample',
     'Nb.C11.no_overlap',
     'Nb.C11.small_offset_rejected',
+    'Nb.C11.single_roundtrip_stored',
     'Nb.C11.single_roundtrip',
+    'Nb.C11.single_roundtrip_shipped',
     'Nb.C11.explicit_offset_roundtrip',
     'Nb.C11.pair_roundtrip',
     'Nb.C11.data_independent',
@@ -205,6 +215,15 @@ def regen():
             if type(v) is not int or v < 0:
                 raise Untranslatable(f'{nm}.{f} is not a natural number: {v!r}')
             L.append(f'def {nm}_{f} : Nat := {v}')
+        ft = k.template_dtype.fields['vox_offset'][0]
+        if (ft.kind, ft.itemsize) == ('f', 4):
+            flag = 'true'
+        elif (ft.kind, ft.itemsize) == ('i', 8):
+            flag = 'false'
+        else:
+            raise Untranslatable(f'{nm} vox_offset field is neither float32 nor int64: {ft!r}')
+        L.append(f'/-- dtype of the `vox_offset` header field is float32 (else int64): `{ft.str[1:]}` -/')
+        L.append(f'def {nm}_vox_offset_is_f32 : Bool := {flag}')
         L.append('')
     rows = []
     rec = nifti1.extension_codes
@@ -269,7 +288,22 @@ def mk_size(n):
     return Case(f'C11 size {n}', {'op': 'size', 'n': n, 'stream': 'size'}, ('size', n), 'size')
 
 
+def mk_voff(fmt, kind, off, lens):
+    line = f'C11 voff {fmt} {kind} {off} {len(lens)}' + ''.join(f' {n}' for n in lens)
+    return Case(line, {'op': 'voff', 'fmt': fmt, 'kind': kind, 'off': off, 'lens': list(lens), 'stream': 'voff'},
+                ('voff', fmt, kind, off, tuple(lens)), 'voff')
+
+
+def mk_f32(n, nxt=False):
+    op = 'f32n' if nxt else 'f32'
+    return Case(f'C11 {op} {n}', {'op': op, 'n': n, 'stream': 'f32'}, (op, n), 'f32')
+
+
 def case_from_data(d):
+    if d['op'] == 'voff':
+        return mk_voff(d['fmt'], d['kind'], d['off'], d['lens'])
+    if d['op'] in ('f32', 'f32n'):
+        return mk_f32(d['n'], d['op'] == 'f32n')
     if d['op'] == 'img':
         return mk_img(d['fmt'], d['kind'], d['endian'], d['off'], d['data'], d['exts'], d.get('dshape'),
                       d.get('ddt', 'u1'), d.get('route', 'fm'), d.get('stream', 'img'), d.get('labels'))
@@ -430,8 +464,68 @@ def impl_ser(case):
     return f'ok {int(total)} {hx(f.getvalue())}'
 
 
+class _LenOnly:
+    """stands for `n` content bytes without allocating them (only `len()` is ever taken)"""
+
+    def __init__(self, n):
+        self.n = n
+
+    def __len__(self):
+        return self.n
+
+
+class _CountingIO:
+    """write-only file object that keeps the first 1024 bytes and counts the rest"""
+
+    def __init__(self):
+        self.pos = 0
+        self.head = b''
+
+    def tell(self):
+        return self.pos
+
+    def write(self, b):
+        if len(self.head) < 1024 and isinstance(b, (bytes, bytearray, memoryview, np.ndarray)):
+            self.head += bytes(b)[:1024 - len(self.head)]
+        self.pos += len(b)
+        return len(b)
+
+
+def impl_voff(case):
+    """the REAL Nifti1Header.write_to / Nifti1Extensions / NiftiExtension.get_sizeondisk + write_to on extensions
+    whose content is a length-only stand-in: offsets far above 2^28 without the bytes"""
+    from nibabel import nifti1
+    d = case.data
+    klass, hsz = _klasses(d['fmt'], d['kind'])
+    hdr = klass.header_class()
+    for n in d['lens']:
+        ext = nifti1.Nifti1Extension(6, b'')
+        ext._raw = _LenOnly(n)
+        hdr.extensions.append(ext)
+    if d['off']:
+        hdr['vox_offset'] = d['off']
+    f = _CountingIO()
+    try:
+        hdr.write_to(f)
+    except Exception as e:
+        return _err(e)
+    o, c, w = VOX_FIELD[d['fmt']]
+    vox = struct.unpack(hdr.endianness + c, f.head[o:o + w])[0]
+    if vox != int(vox):
+        return 'ERR:nonintegral-vox-offset'
+    if int(vox) != int(hdr.get_data_offset()):
+        return 'ERR:get_data_offset-differs-from-field'
+    return f'ok {int(vox)} {f.pos}'
+
+
 def impl(case):
     d = case.data
+    if d['op'] == 'voff':
+        return impl_voff(case)
+    if d['op'] == 'f32':
+        return str(int(np.float32(d['n'])))
+    if d['op'] == 'f32n':
+        return str(int(np.nextafter(np.float32(d['n']), np.float32(np.inf))))
     if d['op'] == 'img':
         return impl_img(case)
     if d['op'] == 'parse':
@@ -576,8 +670,87 @@ def oracle_ser(case, out):
     return None
 
 
+def _representable(fmt, n):
+    """can the vox_offset field of the format hold the integer n exactly? (independent: struct, not NumPy)"""
+    if fmt == 2:
+        return -2 ** 63 <= n < 2 ** 63
+    try:
+        return struct.unpack('<f', struct.pack('<f', n))[0] == n
+    except OverflowError:
+        return False
+
+
+def oracle_voff(case, out):
+    """the offset clauses of the property on sizes alone: a single file's offset leaves room for header, extender
+    and all extensions, is a multiple of 16 when the library chooses it, an explicit offset that is too small
+    is refused and one that is large enough (and storable) is honoured"""
+    d = case.data
+    fmt, kind, off, lens = d['fmt'], d['kind'], d['off'], d['lens']
+    hsz = HDR_SIZE[fmt]
+    if any(need_size(n) >= 2 ** 31 for n in lens):
+        return None if out.startswith('ERR') else f'esize outside int32 written: {lens}'
+    needed = hsz + 4 + sum(need_size(n) for n in lens)
+    desc = f'fmt=NIfTI-{fmt} kind={kind} user_offset={off} content lengths={lens}'
+    if kind == 'p':
+        if not out.startswith('ok '):
+            return f'writing a pair header failed ({out}): {desc}'
+        _, vox, pos = out.split()
+        if int(pos) != (needed if lens else hsz):
+            return f'header file ends at {pos}, expected {needed if lens else hsz}: {desc}'
+        if _representable(fmt, off) and int(vox) != off:
+            return f'pair vox_offset {vox} != requested {off}: {desc}'
+        return None
+    if off and _representable(fmt, off) and off < needed:
+        if out != 'ERR:HeaderDataError':
+            return (f'explicit vox_offset {off} leaves no room for header+extender+extensions ({needed} bytes) but '
+                    f'writing did not raise HeaderDataError: got {out}; {desc}')
+        return None
+    if out == 'ERR:HeaderDataError' and off and not _representable(fmt, off):
+        return None        # a request the field cannot hold may be refused; what matters is: never an overlap
+    if not out.startswith('ok '):
+        return f'writing the header failed ({out}) for a valid request: {desc}'
+    _, vox, pos = out.split()
+    vox, pos = int(vox), int(pos)
+    if pos != needed:
+        return f'extensions end at byte {pos}, expected {needed}: {desc}'
+    if vox < needed:
+        return (f'vox_offset {vox} < header+extender+extensions = {needed}: the data would start inside the '
+                f'extensions: {desc}')
+    if off == 0 and vox % 16:
+        return f'library-chosen vox_offset {vox} is not a multiple of 16: {desc}'
+    if off and _representable(fmt, off) and vox != off:
+        return f'explicit vox_offset {off} not honoured (header says {vox}): {desc}'
+    if off == 0 and _representable(fmt, needed) and vox != needed:
+        return f'library-chosen vox_offset {vox} != minimum {needed} although the field can hold it: {desc}'
+    return None
+
+
+def oracle_f32(case, out):
+    """float32 rounding / successor against exact rational arithmetic (fractions), independent of NumPy"""
+    from fractions import Fraction
+    d = case.data
+    n = d['n']
+    if n < 2 ** 24:
+        exp = n if d['op'] == 'f32' else None
+    else:
+        k = n.bit_length() - 24
+        q, r = divmod(n, 2 ** k)
+        if d['op'] == 'f32':
+            up = Fraction(r, 2 ** k) > Fraction(1, 2) or (2 * r == 2 ** k and q % 2 == 1)
+            exp = (q + 1 if up else q) * 2 ** k
+        else:
+            exp = n + 2 ** k if r == 0 else None
+    if exp is not None and out != str(exp):
+        return f'{d["op"]}({n}) = {out}, IEEE float32 gives {exp}'
+    return None
+
+
 def oracle(case, out):
     d = case.data
+    if d['op'] == 'voff':
+        return oracle_voff(case, out)
+    if d['op'] in ('f32', 'f32n'):
+        return oracle_f32(case, out)
     if d['op'] == 'img':
         return oracle_img(case, out)
     if d['op'] == 'parse':
@@ -594,6 +767,10 @@ def oracle(case, out):
 
 def signature(case, what):
     d = case.data
+    if d['op'] == 'voff':
+        need = HDR_SIZE[d['fmt']] + 4 + sum(need_size(n) for n in d['lens'])
+        return ('niftiext:voff+' + ('single' if d['kind'] == 's' else 'pair') + '+nifti%d' % d['fmt'] +
+                ('+auto-offset' if d['off'] == 0 else '+explicit-offset') + ('+big' if need >= 2 ** 28 else '+small'))
     if d['op'] != 'img':
         return 'ext:' + d['op']
     parts = ['single' if d['kind'] == 's' else 'pair']
@@ -764,9 +941,82 @@ def rand_parse_case(rng, table):
     return mk_parse(endian, size, hx(raw))
 
 
+def f32_value(rng):
+    """natural numbers that stress float32 rounding: around powers of two, exact ties, near ties, multiples of 16"""
+    # below 2^53 only: NumPy converts a Python int through float64 first (exact there; double rounding above),
+    # and the int64 field of NIfTI-2 overflows at 2^63 — both outside the model
+    e = rng.randrange(20, 52) if rng.random() < 0.3 else rng.randrange(22, 36)
+    k = max(e - 24, 0)
+    r = rng.random()
+    if r < 0.25:
+        return max(0, 2 ** e + rng.randrange(-40, 41))
+    q = rng.randrange(2 ** 23, 2 ** 24)
+    if r < 0.5:
+        return q * 2 ** k + (2 ** k // 2) + rng.choice([0, 0, 1, -1])         # ties and their neighbours
+    if r < 0.7:
+        return q * 2 ** k                                                      # exactly representable
+    if r < 0.85:
+        return (q * 2 ** k + rng.randrange(0, 2 ** k)) // 16 * 16              # multiples of 16
+    return q * 2 ** k + rng.randrange(0, 2 ** k)
+
+
+def rand_voff_case(rng):
+    fmt, kind = rng.choice([1, 1, 2]), rng.choice('sssp')
+    base = HDR_SIZE[fmt] + 4
+    r = rng.random()
+    if r < 0.15:
+        lens = [rng.randrange(0, 200) for _ in range(rng.randrange(0, 4))]
+    else:
+        # aim the total at the neighbourhood of a power of two 2^24..2^33 (or anywhere up to 2^32)
+        target = rng.choice([2 ** e for e in range(24, 34)] + [3 * 2 ** 27, 5 * 2 ** 26, 2 ** 28 + 2 ** 20]) \
+            + 16 * rng.randrange(-6, 40) if r < 0.75 else rng.randrange(2 ** 24, 2 ** 32)
+        k = rng.choice([1, 1, 2, 3, 5])
+        lens, left = [], max(target - base, 16)
+        for i in range(k - 1):
+            n = min(rng.randrange(0, left // 2 + 1), 2 ** 31 - 40)
+            lens.append(n)
+            left = max(left - need_size(n), 16)
+        while left > 2 ** 31 - 40:
+            lens.append(2 ** 31 - 40 - rng.randrange(0, 64))
+            left -= need_size(lens[-1])
+        lens.append(max(left - 8 - rng.randrange(0, 16), 0))
+        rng.shuffle(lens)
+        if rng.random() < 0.03:
+            lens[rng.randrange(len(lens))] = rng.choice([2 ** 31 - 24, 2 ** 31 - 23, 2 ** 31, 2 ** 32 + 5])
+    needed = base + sum(need_size(n) for n in lens)
+    r = rng.random()
+    if r < 0.45:
+        off = 0
+    elif r < 0.55:
+        off = needed
+    elif r < 0.8:
+        off = max(1, needed + rng.choice([-32, -16, -1, 1, 15, 16, 17, 31, 32, 48, 64, 100, 4096]))
+    else:
+        off = max(1, f32_value(rng) if rng.random() < 0.5 else needed + rng.randrange(-200, 200))
+    if kind == 'p' and rng.random() < 0.5:
+        off = rng.choice([0, 16, 352, 2 ** 24 + 1, 2 ** 24 + 2, 2 ** 25 + 2, 2 ** 28 + 16, f32_value(rng)])
+    return mk_voff(fmt, kind, off, lens)
+
+
 def cases(rng, tier):
     table = _codes_table()
     out = []
+    # ---- the vox_offset field: float32 rounding / successor, and the offset rule on sizes alone (no bytes)
+    for n in (0, 1, 2 ** 24 - 1, 2 ** 24, 2 ** 24 + 1, 2 ** 24 + 2, 2 ** 24 + 3, 2 ** 28 - 16, 2 ** 28, 2 ** 28 + 16,
+              2 ** 28 + 48, 268435856, 268435840, 268435872, 2 ** 31, 2 ** 32 + 2 ** 8, 2 ** 32 + 2 ** 8 + 1):
+        out.append(mk_f32(n))
+    for _ in range({'quick': 600, 'thorough': 20000, 'search': 2000}[tier]):
+        n = f32_value(rng)
+        out.append(mk_f32(n))
+        if n >= 2 ** 24 and n % 2 ** (n.bit_length() - 24) == 0:
+            out.append(mk_f32(n, True))
+    out.append(mk_voff(1, 's', 0, [268435488]))            # the repaired defect: 352 + 268435504 is not a float32
+    out.append(mk_voff(1, 's', 0, [268435488 + 32]))
+    out.append(mk_voff(2, 's', 0, [268435488]))
+    out.append(mk_voff(1, 's', 268435856, [268435488]))
+    out.append(mk_voff(1, 's', 268435872, [268435488]))
+    for _ in range({'quick': 800, 'thorough': 20000, 'search': 3000}[tier]):
+        out.append(rand_voff_case(rng))
     # ---- exhaustive small: size formula
     for n in range(0, 201 if tier != 'thorough' else 1201):
         out.append(mk_size(n))
